@@ -91,6 +91,22 @@ func c05Sources() []srcVariant {
 			s := &space.Decl{Pkg: "in", Name: "S" + id, Under: space.St(f("B", tStr), f("Name", tStr), f("N", space.P(space.N(n))), f("N2", space.N(n)))}
 			return s, []*space.Decl{n}
 		}},
+		// three and four pointer hops on the way to the field: every single nil must yield the zero value, not a panic
+		srcVariant{"nested-3ptr", func(id string) (*space.Decl, []*space.Decl) {
+			k := &space.Decl{Pkg: "in", Name: "K" + id, Under: space.St(f("A", tInt))}
+			m := &space.Decl{Pkg: "in", Name: "M" + id, Under: space.St(f("K", space.P(space.N(k))))}
+			n := &space.Decl{Pkg: "in", Name: "N" + id, Under: space.St(f("M", space.P(space.N(m))))}
+			s := &space.Decl{Pkg: "in", Name: "S" + id, Under: space.St(f("B", tStr), f("Name", tStr), f("N", space.P(space.N(n))))}
+			return s, []*space.Decl{n, m, k}
+		}},
+		srcVariant{"nested-4ptr", func(id string) (*space.Decl, []*space.Decl) {
+			l := &space.Decl{Pkg: "in", Name: "L" + id, Under: space.St(f("A", tInt))}
+			k := &space.Decl{Pkg: "in", Name: "K" + id, Under: space.St(f("L", space.P(space.N(l))))}
+			m := &space.Decl{Pkg: "in", Name: "M" + id, Under: space.St(f("K", space.P(space.N(k))))}
+			n := &space.Decl{Pkg: "in", Name: "N" + id, Under: space.St(f("M", space.P(space.N(m))))}
+			s := &space.Decl{Pkg: "in", Name: "S" + id, Under: space.St(f("B", tStr), f("Name", tStr), f("N", space.P(space.N(n))))}
+			return s, []*space.Decl{n, m, k, l}
+		}},
 		mk("dropped", f("B", tStr), f("Name", tStr)),
 		method("method", false, false),
 		method("method-ptr-recv", true, false),
@@ -151,6 +167,7 @@ var c05Menu = []string{
 	"autoMap N", "autoMap N.M", "autoMap Nope", "autoMap N2",
 	"matchIgnoreCase", "ignoreMissing", "ignoreUnexported",
 	"map Nope A", "map B.X A", "map B A",
+	"map N.M.K.A A", "map N.M.K.L.A A", "autoMap N.M.K", "autoMap N.M.K.L",
 	"map N.a A", "map N.M.a A", "map N.m.Other A", "map N.Other A",
 	"map . W", "map . A", "ignore A D", "ignore W A", "ignore A B Name", "map N W",
 }
